@@ -132,17 +132,22 @@ type crashStats struct {
 	walLost     int
 	snapFiles   int
 	tornInWal   bool
+	shortTail   int // files whose lost tail is missing from the image (size never updated)
 	description string
 }
 
 // materialise writes the crash image of src into dst.  choose(n) decides, for
 // the n unsynced sectors (in sorted file/sector order), which are lost.
-func (sh *shadow) materialise(src, dst string, choose func(n int) []bool) (crashStats, error) {
+// short() decides, when the lost sectors of a file form a tail behind its durable
+// length (the file grew since its last sync), whether that tail is missing from
+// the image (size never updated) instead of zero-filled.
+func (sh *shadow) materialise(src, dst string, choose func(n int) []bool, short func() bool) (crashStats, error) {
 	var cs crashStats
 	type fstate struct {
 		rel      string
 		vol, old []byte
 		dirty    []int
+		durLen   int
 	}
 	var files []fstate
 	for _, rel := range walkFiles(src) {
@@ -161,6 +166,7 @@ func (sh *shadow) materialise(src, dst string, choose func(n int) []bool) (crash
 		if ino, ok := inoOfPath(p); ok {
 			if d, ok := sh.dur[ino]; ok {
 				copy(fs.old, d)
+				fs.durLen = min(len(d), len(vol))
 			}
 		}
 		for sec := 0; sec*sector < len(vol); sec++ {
@@ -221,7 +227,21 @@ func (sh *shadow) materialise(src, dst string, choose func(n int) []bool) (crash
 				}
 				copy(b[lo:hi], f.old[lo:hi])
 			}
-			desc = append(desc, fmt.Sprintf("%s: lost sectors %v of unsynced %v", filepath.Base(f.rel), ls, f.dirty))
+			set := map[int]bool{}
+			for _, sec := range ls {
+				set[sec] = true
+			}
+			cut := -1
+			for sec := (len(f.vol)+sector-1)/sector - 1; sec >= 0 && set[sec] && sec*sector >= f.durLen; sec-- {
+				cut = sec * sector
+			}
+			tailNote := ""
+			if cut >= 0 && short != nil && short() {
+				b = b[:cut]
+				cs.shortTail++
+				tailNote = fmt.Sprintf(" (file ends at %d: the lost tail is missing, not zero-filled)", cut)
+			}
+			desc = append(desc, fmt.Sprintf("%s: lost sectors %v of unsynced %v%s", filepath.Base(f.rel), ls, f.dirty, tailNote))
 			if strings.HasSuffix(f.rel, ".wal") && len(ls) < len(f.dirty) {
 				cs.tornInWal = true
 			}
